@@ -42,6 +42,13 @@ Definition style_eqb (a b : style) : bool :=
   paint_eqb (sfill a) (sfill b) && paint_eqb (sstroke a) (sstroke b) && Qeq_bool (swidth a) (swidth b) &&
   (scap a =? scap b)%Z && (sjoin a =? sjoin b)%Z && Qeq_bool (sdoff a) (sdoff b) &&
   list_eqb Qeq_bool (sdashes a) (sdashes b) && (srule a =? srule b)%Z.
+(** the style handed to the renderer as the specification sees it: a dash offset has a meaning only together with a
+    non-empty dash array, so it is compared only then *)
+Definition style_eqb_handed (a b : style) : bool :=
+  paint_eqb (sfill a) (sfill b) && paint_eqb (sstroke a) (sstroke b) && Qeq_bool (swidth a) (swidth b) &&
+  (scap a =? scap b)%Z && (sjoin a =? sjoin b)%Z &&
+  list_eqb Qeq_bool (sdashes a) (sdashes b) &&
+  (match sdashes a with [] => true | _ => Qeq_bool (sdoff a) (sdoff b) end) && (srule a =? srule b)%Z.
 Definition tok_eqb (a b : Z * Q * Q) : bool :=
   let '(c1, x1, y1) := a in let '(c2, x2, y2) := b in (c1 =? c2)%Z && Qeq_bool x1 x2 && Qeq_bool y1 y2.
 Definition obj_eqb (a b : obj) : bool :=
@@ -224,7 +231,7 @@ Definition probes : list qpt := [(0, 0); (1, 0); (0, 1)].
 Definition cmp_spec (sl : Q) (go : list grec) (sp : list sitem) : bool * bool * bool :=
   let okobj := list_eqb (fun g i => obj_eqb (g_obj g) (si_obj i)) go sp in
   let pairs := combine go sp in
-  let okst := forallb (fun '(g, i) => negb (is_path (si_obj i)) || style_eqb (g_st g) (si_st i)) pairs in
+  let okst := forallb (fun '(g, i) => negb (is_path (si_obj i)) || style_eqb_handed (g_st g) (si_st i)) pairs in
   let okm := forallb (fun '(g, i) => forallb (fun p => pt_close sl (mdot (g_m g) p) (si_fn i p)) probes) pairs in
   (okobj, okst, okm).
 
